@@ -112,6 +112,8 @@ pub mod k {
     pub const DGRAM_ALT: i128 = 78; // odd-numbered datagrams are small (100 bytes)
     pub const EARLY_STOP: i128 = 79; // client stops the receive half of each bidi stream right after opening it
     pub const NO_REDO: i128 = 80; // after a 0-RTT rejection the client does not repeat its workload
+    pub const HOSTILE_TP: i128 = 82; // >0: catalogue entry of hostile_tp::mutate applied to the peer's transport parameters as seen by the victim
+    pub const HOSTILE_TP_SIDE: i128 = 83; // victim endpoint (0 client, 1 server); pair 0 (or the first real pair of a 0-RTT scenario) is attacked
     pub const DGRAM_START: i128 = 81; // us: application datagrams are not sent before this instant
     pub const RECONNECT: i128 = 70; // open this many further client connections, one per drained connection (slot reuse)
 }
@@ -318,6 +320,7 @@ pub struct World {
     drop_run: [i128; 2],
     injected: u64,
     app_wakes: Vec<u64>,
+    tp: Option<Arc<crate::hostile_tp::TpShared>>,
 }
 
 fn ecn_code(e: Option<EcnCodepoint>) -> i128 {
@@ -468,6 +471,7 @@ impl World {
             drop_run: [0, 0],
             injected: 0,
             app_wakes: Vec::new(),
+            tp: None,
             p,
         };
         let (cert, key) = load_cert();
@@ -482,10 +486,38 @@ impl World {
         }));
         let tk = quinn_proto_token_key(seed);
         scfg.token_key(tk);
+        let tp_kind = w.p.get(k::HOSTILE_TP, 0);
+        if tp_kind > 0 {
+            let victim = w.p.get(k::HOSTILE_TP_SIDE, 0).clamp(0, 1);
+            let target = if w.p.get(k::ZERO_RTT, 0) > 0 { 1 } else { 0 };
+            let sh = Arc::new(crate::hostile_tp::TpShared {
+                kind: tp_kind,
+                seed,
+                target_idx: target,
+                cur_idx: std::sync::atomic::AtomicI64::new(-1),
+                epoch: std::sync::atomic::AtomicI64::new(0),
+                log: Mutex::new(Vec::new()),
+            });
+            scfg.crypto = Arc::new(crate::hostile_tp::HServer { inner: scfg.crypto.clone(), m: sh.clone(), attack: victim == 1 });
+            w.tp = Some(sh);
+        }
         let scfg = Arc::new(scfg);
         let mut roots = quinn_proto::rustls::RootCertStore::empty();
         roots.add(certd).unwrap();
-        let mut ccfg = ClientConfig::with_root_certificates(Arc::new(roots)).unwrap();
+        let mut ccfg = if let Some(sh) = &w.tp {
+            use quinn_proto::rustls;
+            let mut rc = rustls::ClientConfig::builder_with_provider(Arc::new(rustls::crypto::ring::default_provider()))
+                .with_protocol_versions(&[&rustls::version::TLS13])
+                .unwrap()
+                .with_root_certificates(roots)
+                .with_no_client_auth();
+            rc.enable_early_data = true;
+            let q = quinn_proto::crypto::rustls::QuicClientConfig::try_from(rc).unwrap();
+            let victim = w.p.get(k::HOSTILE_TP_SIDE, 0).clamp(0, 1);
+            ClientConfig::new(Arc::new(crate::hostile_tp::HClient { inner: Arc::new(q), m: sh.clone(), attack: victim == 0 }))
+        } else {
+            ClientConfig::with_root_certificates(Arc::new(roots)).unwrap()
+        };
         ccfg.transport_config(Arc::new(w.transport(false)));
         w.client_cfg = Some(ccfg);
         w.server_cfg = Some(scfg.clone());
@@ -563,7 +595,19 @@ impl World {
         // the pair identity travels in the client-chosen initial DCID
         let seedb = self.p.get(k::SEED, 1) as u8;
         cfg.initial_dst_cid_provider(Arc::new(move || ConnectionId::new(&[0xD0, idx as u8, seedb, 2, 3, 4, 5, 6])));
+        if let Some(sh) = &self.tp {
+            sh.cur_idx.store(idx as i64, std::sync::atomic::Ordering::SeqCst);
+        }
         let (ch, conn) = self.eps[0].ep.connect(now, cfg, saddr, "localhost").unwrap();
+        if let Some(sh) = &self.tp {
+            // outcomes logged inside connect concern the parameters remembered with the session
+            // ticket (0-RTT): informational WORLD record 10, not an expectation
+            let l: Vec<_> = sh.log.lock().unwrap().drain(..).collect();
+            for (side, i, kind, ok) in l {
+                self.trace.push(vec![13, self.now as i128, 10, side, i, kind, ok]);
+            }
+            sh.epoch.fetch_add(1, std::sync::atomic::Ordering::SeqCst);
+        }
         let mut app = self.new_app(true, idx);
         if warmup {
             app.warmup = true;
@@ -915,7 +959,12 @@ impl World {
                     let b = buf.clone();
                     self.put_on_wire(epi, &tr, &b, -1);
                 } else {
-                    match self.eps[epi].ep.accept(incoming, now, &mut buf, None) {
+                    if let Some(sh) = &self.tp {
+                        sh.cur_idx.store(new_idx as i64, std::sync::atomic::Ordering::SeqCst);
+                    }
+                    let accepted = self.eps[epi].ep.accept(incoming, now, &mut buf, None);
+                    self.drain_tp_log();
+                    match accepted {
                         Ok((ch, conn)) => {
                             // a replayed Initial may open a second attempt under the same pair
                             // identity: later incarnations get index pair + 1000 * k
@@ -932,7 +981,12 @@ impl World {
                             self.eps[epi].conns.insert(ch.0, ConnSt { conn, app, wake_at: None, last_deadline: None, drained: false, conn_index: idx });
                         }
                         Err(e) => {
-                            self.trace.push(vec![3, t, epi as i128, -1, 22, 0]);
+                            let (a, code) = match &e.cause {
+                                ConnectionError::TransportError(te) => (2, u64::from(te.code) as i128),
+                                ConnectionError::ConnectionClosed(cc) => (3, u64::from(cc.error_code) as i128),
+                                _ => (0, 0),
+                            };
+                            self.trace.push(vec![3, t, epi as i128, -1, 22, 0, a, code, new_idx as i128]);
                             if let Some(tr) = e.response {
                                 let did_ = self.addr_id_of(tr.destination);
                     self.trace.push(vec![1, t, epi as i128, -1, did_, tr.size as i128, 0, 0, 2]);
@@ -1441,7 +1495,17 @@ impl World {
         self.trace[last].push(rid);
     }
 
+    fn drain_tp_log(&mut self) {
+        if let Some(sh) = &self.tp {
+            let l: Vec<_> = sh.log.lock().unwrap().drain(..).collect();
+            for (side, idx, kind, ok) in l {
+                self.trace.push(vec![13, self.now as i128, 9, side, idx, kind, ok]);
+            }
+        }
+    }
+
     fn drive_conn(&mut self, epi: usize, chk: usize) {
+        self.drain_tp_log();
         let gso = self.p.get(k::GSO, 1).max(1) as usize;
         let oidx = self.eps[epi].conns[&chk].conn_index as i128;
         let mut rounds = 0;
@@ -1739,6 +1803,7 @@ impl World {
                 }
             }
         }
+        self.drain_tp_log();
         // final summary per connection (live or zombie)
         let t = self.now as i128;
         for epi in 0..2 {
